@@ -36,6 +36,8 @@ Inductive pop :=
 | PEscape (v : var)          (* v handed to something else *)
 | POpen | PShut              (* the branch taken says !(shutdown || closing) / shutdown || closing *)
 | PSetShutdown | PSetClosing
+| PSeqRead (k : key)         (* k := client.seq *)
+| PSeqInc                    (* client.seq++ *)
 | PNext (v : var) (k : key)  (* an iteration of `for k, v := range client.pending` begins *)
 | PEnd.                      (* that loop is over *)
 
@@ -164,6 +166,8 @@ Definition astep (strict : bool) (a : ast) (o : pop) : option ast :=
   | PShut => Some a
   | PSetShutdown | PSetClosing =>
       if held a then Some (mkA true false true (isempty a) (vars a) (regs a) (mine a)) else None
+  | PSeqRead _ => Some (mkA (held a) (isopen a) (flagset a) (isempty a) (unpeek_all (vars a)) (regs a) (mine a))
+  | PSeqInc => Some a          (* what the counter is for: Client/PendingSeq.v *)
   | PNext v k => if held a && noleak a then Some (after_next a v k) else None
   | PEnd => if held a && noleak a then Some (after_end a) else None
   end.
@@ -209,7 +213,7 @@ Definition ast_frame_eqb (a b : ast) : bool :=
 (* a loop body: one iteration leads back to where it can start again (or stop), and removes the entry it visits --
    which is also what makes "the loop ends when the table is empty" the same as Go's "every entry was visited" *)
 Definition body_ok (strict : bool) (a : ast) (v : var) (k : key) (b : list pop) : bool :=
-  forallb (fun o => match o with PNext _ _ | PEnd | PLock | PUnlock => false | _ => true end) b
+  forallb (fun o => match o with PNext _ _ | PEnd | PLock | PUnlock | PSeqRead _ | PSeqInc | PReg _ _ => false | _ => true end) b
   && match brun strict (after_next a v k) b with
      | Some (Some a') => held a' && noleak a' && ast_frame_eqb a a'
                          && existsb (fun o => match o with PDel k' => Nat.eqb k' k | _ => false end) b
@@ -341,6 +345,8 @@ Definition exec (t : tid) (x : nat) (o : pop) (w : world) : option world :=
   | PShut => if shut w || closing w then Some w else None
   | PSetShutdown => Some (mkW (thr w) (lock w) (pend w) true (closing w) (next w) (dones w) (intable w) (holder w) (bad w))
   | PSetClosing => Some (mkW (thr w) (lock w) (pend w) (shut w) true (next w) (dones w) (intable w) (holder w) (bad w))
+  | PSeqRead k => Some (set_thr w t (mkT (upd (env th) k x) (pc th) (todo th) (loc th)))   (* x: the counter's value *)
+  | PSeqInc => Some w
   | PNext v k => match lookup (pend w) x with
                  | Some c => Some (set_thr w t (mkT (upd (env th) k x) (pc th) (todo th) (upd (loc th) v (Some c))))
                  | None => None
